@@ -14,10 +14,10 @@ add("C01", "Hypothesis-generated games vs independent mpmath reference model (di
     "Exploration: thousands of generated (model, configuration, game, outcome encoding, per-call option) cases per run, each compared per player with a 50-digit evaluation of the published update; shrunk failures become replay files. Right level because the property quantifies over a continuous input space with an exact executable oracle.",
     "Trusts vf/refmodel.py as a transcription of Weng & Lin (2011) and mpmath's ncdf/npdf; TM margins outside [1e-8,1e-2] excluded (counted); TM-part doubled c_iq is the open known finding tmp-ciq-doubled.")
 add("C03", "Hypothesis metamorphic test: several encodings of one weak order must give bit-identical results; symmetry anchor for mixed-type ties",
-    "Exploration over generated games x weak orders x encodings (int/float/mixed/bool/huge/negative/scores/omitted) with an exact (bitwise) metamorphic oracle.",
+    "Exploration over generated games x weak orders x encodings (int/float/mixed/bool/huge/relatively-close floats/small ints/negative/scores/omitted) with an exact (bitwise) metamorphic oracle; history-dependent failures are saved with the cases that preceded them.",
     "Rank values restricted to finite int/float/bool; 'identical' read as bit-identical.")
-add("C14", "Hypothesis stateful machine (history independence), generated line-level thread schedules under a sys.settrace scheduler, child interpreters per PYTHONHASHSEED",
-    "Exploration of call histories, identities, harness-owned interleavings (<= 6 preemptions, <= 4 threads, source-line granularity) and hash seeds; every result compared bit for bit with the same call on a fresh model.",
+add("C14", "Hypothesis stateful machine (history independence), generated line-level thread schedules under a sys.settrace scheduler, differential across fresh child interpreters with different PYTHONHASHSEED and call order",
+    "Exploration of call histories, identities, harness-owned interleavings (<= 6 preemptions, <= 4 threads, source-line granularity), hash seeds and call orders in fresh processes; every result compared bit for bit with the same call on a fresh model / in another process.",
     "Preemption granularity is the source line; bounded preemptions/threads; free-running thread stress is only additional.")
 add("C15", "Hypothesis metamorphic/differential test: per-call option vs model constructed with that option, bit-identical",
     "Exploration over generated games and option values (0, 0.0, 1e-300, ints, default, large; True/False) with fresh model and ratings on each side.",
@@ -41,8 +41,8 @@ add("C06", "Hypothesis single-call invariants + RuleBasedStateMachine league his
 add("C07", "Hypothesis invariant test: precision-weighted sum of mu changes vs a tolerance relative to the summands' magnitude",
     "Exploration over generated games (3/8 dyadic so sums are exact): the balance identity is evaluated on every output with tolerance 1e-9 of the cancelling terms plus the stated TM draw-margin term.",
     "Tolerance relative to summand magnitude (the net change is mathematically zero).")
-add("C08", "Hypothesis corner-heavy generation over the widest stated domain + atheris coverage-guided fuzz target (thorough) with the same oracle",
-    "Exploration: no exception and all numbers finite for rate and the three predicts on 2..8 teams x 1..16 players, sigma down to 0 (with tau), kappa down to 1e-12, scale 1e-3..1e3.",
+add("C08", "Hypothesis corner-heavy generation over the widest stated domain (incl. a second call through the same model) + atheris coverage-guided fuzz target with the same oracle",
+    "Exploration: no exception and all numbers finite for rate and the three predicts on 2..8 teams x 1..16 players, sigma down to 0 (with tau), kappa down to 1e-12, scale 1e-3..1e3; libFuzzer campaign over the same structured domain.",
     "sigma=0 only with effective tau >= 1e-6 beta.")
 add("C09", "Hypothesis invariant + metamorphic tests (permutation, identical teams, single-member mu increment) on predict_win",
     "Exploration over generated team lists incl. identical and 1-ulp-apart teams; oracle = range, sum, symmetry, exact one-half, monotonicity with an 8-ulp floor.",
@@ -56,14 +56,14 @@ add("C11", "Hypothesis invariant tests on predict_rank output (exact float compa
 add("C12", "Hypothesis-generated teams vs independent 50-digit mpmath evaluation of the stated closed forms (differential oracle)",
     "Exploration: every number of the three predict operations compared to 1e-9 absolute with the closed forms written from the statement.",
     "predict_rank uses n*beta^2 also for n=2; mpmath erfinv as inverse CDF.")
-add("C13", "Exhaustive fault enumeration (all sites x fault kinds of a malformed-argument grammar) inside Hypothesis-generated valid calls; atheris target (thorough)",
+add("C13", "Exhaustive fault enumeration (all sites x fault kinds of a malformed-argument grammar) inside Hypothesis-generated valid calls; atheris target injecting grammar-built objects",
     "Fault enumeration: for every generated valid call all faults of the grammar are injected one at a time for rate and the three predicts; oracle = exact exception type and unchanged snapshots of all reachable ratings and of the model.",
     "Falsy ranks/scores are 'not given'; Decimal/Fraction/NaN/inf not generated.")
 add("C16", "Hypothesis metamorphic tests: rescaled and shifted copies of one game compared within the numerical budget; predictions within 1e-12",
     "Exploration over generated games x factors (2^k exact, 10^u) x shifts.",
     "Gamma family scale/shift invariant by construction; branch-boundary and out-of-range shifted cases excluded (counted).")
-add("C18", "Hypothesis-generated rating pairs (constructed equal ordinals) + exhaustive operator x operand-kind x side grid",
-    "Exploration of value pairs with exact oracles (is-identity of booleans), plus exhaustive enumeration of the foreign-operand grid inside each case.",
+add("C18", "Hypothesis-generated rating pairs (constructed equal ordinals) + exhaustive operator x operand-kind x side grid + RuleBasedStateMachine over ratings that change between comparisons",
+    "Exploration of value pairs with exact oracles (is-identity of booleans), exhaustive enumeration of the foreign-operand grid inside each case, and leaderboard histories (compare, sort, update by assignment / rate(), compare again).",
     "Finite mu/sigma only.")
 add("C19", "Differential testing across the five model classes (predictions, C13 verdicts, rating-object behaviour, BT-part vs BT-full) + exhaustive signature comparison",
     "Exploration of generated inputs pushed through all five copies and compared bit for bit; the public surface comparison is exhaustive.",
